@@ -1,0 +1,8 @@
+//go:build !verif
+
+package tree
+
+// verifEnabled is true only in builds tagged "verif", which make the generated parser
+// report its machine steps to an optional per-instance hook (used by external trace
+// validation). Untagged builds emit exactly the same code as before.
+const verifEnabled = false
